@@ -43,6 +43,12 @@ def attribute(v):
     if any(i.split(":")[-1] in ("NoRecordingWhileResetting", "ResetRunsAllEntries", "EnterPushesOne", "ExitResetsTop",
                                "RecordsIntoTop", "ExitRestoresLP") for i in invs):
         props.add("C03")
+    if any(i.endswith("AnalysisLeavesLP") for i in invs):
+        props.add("C13")
+    if any(i.endswith("SlotsIndependentLP") for i in invs):
+        props.add("C12")
+    if any(i.endswith("ReadOnlyLeavesLP") for i in invs):
+        props.update({"C01", "C12"} if a in ("RxnArith", "SaveDoc") else {"C01"})
     if any(i.endswith("AnalysisRecordsNothingInCallerContext") for i in invs):
         props.update({"C13", "C03"})
     if any(i.endswith("Exact") for i in invs):
